@@ -77,6 +77,7 @@ inductive Stmt
   | decl (name : String) (dflt : Val)
   | nameScope (n : String) (body : List Stmt)
   | condScope (parent : String) (vals : List Val) (lazy : Bool) (body : List Stmt)
+  | get (name : String)             -- `hp.get(name)` / `hp[name]`; the harness catches the error and goes on
 
 inductive Ev | ret (name : String) (v : Option Val) | err (e : Err)
   deriving Repr
@@ -92,6 +93,9 @@ def run (fuel : Nat) (s : S) (prog : List Stmt) (last : Option Val) : S × List 
       match s.retrieve n d with
       | .ok (s', v) => let r := run fuel s' rest v; (r.1, .ret (s.qualify n) v :: r.2)
       | .error e => (s, [.err e])
+    | .get n :: rest =>
+      let r := run fuel s rest last
+      (r.1, (match s.get n with | .ok v => Ev.ret (s.qualify n) (some v) | .error e => Ev.err e) :: r.2)
     | .nameScope n body :: rest =>
       let r1 := run fuel { s with nameScopes := s.nameScopes ++ [n] } body none
       let s1 := { r1.1 with nameScopes := s.nameScopes }
